@@ -78,8 +78,9 @@ def matrix():
         run(spec, [])
         m = json.load(open(d))
         r = m['check_results'].get(spec.split('/')[0] + ':quick', {})
+        own = spec.split('/')[0]
         kinds = 'concrete input' if any(l.startswith('VIOLATION') and 'no-failing-input-found' not in l for l in r.get('lines', [])) else \
-            ('no-failing-input-found' if any(l.startswith('VIOLATION') for l in r.get('lines', [])) else 'MISSED')
+            ('no-failing-input-found' if any(l.startswith('VIOLATION') for l in r.get('lines', [])) else ('caught by a sibling check only' if m.get('caught_by') else 'MISSED'))
         rows.append((spec, ', '.join(m.get('files', [])), ', '.join(m.get('caught_by', [])) or '-', kinds, r.get('wall')))
     with open('/verif/seeded/MATRIX.md', 'w') as f:
         f.write('| seeded change | files | caught by (quick) | how | wall s |\n|---|---|---|---|---|\n')
